@@ -15,4 +15,14 @@ def jobs(tier, seed):
         sq = [j for j in sq if j["name"] in ("sendquery_srv2_vc0_ex0_sib0", "sendquery_srv2_vc1_ex0_sib0", "sendquery_srv1_vc0_ex1_sib0",
                                              "sendquery_srv1_vc0_ex1_sib1", "sendquery_srv1_vc1_ex2_sib1")]
     J += sq
+    # "the first such in configuration order" also after the application RE-configures the servers at run time: the
+    # priority list the send step walks must be in the new configuration order (ares_servers_update; harness shared with
+    # C08 / C16: the list is compared entry by entry, in traversal order, with the requested configuration)
+    import importlib.util
+    p16 = os.path.join(os.path.dirname(os.path.abspath(__file__)), "..", "C16", "jobs.py")
+    spec = importlib.util.spec_from_file_location("jobs_C16_reuse09", p16)
+    m16 = importlib.util.module_from_spec(spec); spec.loader.exec_module(m16)
+    for j in m16.servers_update_jobs(tier):
+        j = dict(j); j["harness"] = "../C16/" + j["harness"]
+        J.append(j)
     return J
